@@ -7,7 +7,7 @@ CONSTANTS Cap = 2
  NRoots = 1
  NSigs = 1
  ThrMC = 2
- MaxCalls = 6
+ MaxCalls = 5
  MaxTrims = 0
  NConc = 2
  MaxBatch = 1
